@@ -77,11 +77,14 @@ def narrower(rng, natural):
     return rng.choice(cands) if cands else natural
 
 
-def add_raw_nets(rng, block, pool, count, tag):
-    """truncating-destination nets of every maskable op over wires of `pool`"""
+def add_raw_nets(rng, block, pool, count, tag, with_xcs=True):
+    """truncating-destination nets of every maskable op over wires of `pool`; truncating
+    mux/concat/select (outside C02_fast_refines_spec: FastSimulation mis-parenthesises them)
+    only when with_xcs"""
     made = []
+    ops = ['w', '~', '&', '|', '^', 'n', '+', '-', '*', 'r'] + (['x', 'c', 's'] * 2 if with_xcs else [])
     for k in range(count):
-        op = rng.choice(['w', '~', '&', '|', '^', 'n', '+', '-', '*', 'x', 'c', 's', 'r'])
+        op = rng.choice(ops)
         a = rng.choice(pool)
         nm = '%sraw%d' % (tag, k)
         same = [w for w in pool if len(w) == len(a)]
@@ -156,7 +159,7 @@ def sweep_design(rng, W, k):
     r.next <<= a ^ (r + b)[:W]
     r2.next <<= pyrtl.concat(s, a) - r2
     pool = [a, b, c, s, r, r2] + [w for _, w in items]
-    add_raw_nets(rng, block, pool, 14, 'w%d_' % W)
+    add_raw_nets(rng, block, pool, 14, 'w%d_' % W, with_xcs=(k % 3 == 2))
     return d
 
 
@@ -170,7 +173,8 @@ def random_design(rng, small):
     pool = [w for w in block.wirevector_set
             if not isinstance(w, (pyrtl.Output, pyrtl.Const))]
     pool.sort(key=lambda w: w.name)
-    add_raw_nets(rng, block, pool, rng.randint(1, 3) if small else rng.randint(2, 6), 'z')
+    add_raw_nets(rng, block, pool, rng.randint(1, 3) if small else rng.randint(2, 6), 'z',
+                 with_xcs=(rng.random() < 0.3))
     return d
 
 
@@ -406,10 +410,75 @@ def replay_dict(ctx, case, extra=None):
 
 # ----------------------------------------------------------------------------- Coq expressions
 
+def hexlit(v):
+    """Coq parses `0x..` numerals in time linear in their length (decimal: quadratic)"""
+    if v < 0:
+        return '(%d)' % v
+    return str(v) if v < (1 << 30) else hex(v)
+
+
+def hexpairs(d):
+    return '[' + '; '.join('(%s, %s)' % (hexlit(k), hexlit(v)) for k, v in d) + ']'
+
+
+class HexDump(nlx.Dump):
+    """nlx.Dump with large values written as hexadecimal numerals"""
+
+    def kind(self, w):
+        if isinstance(w, pyrtl.Const):
+            return '(KConst %s)' % hexlit(w.val)
+        if isinstance(w, pyrtl.Register) and w.reset_value is not None:
+            return '(KReg (Some %s))' % hexlit(w.reset_value)
+        return nlx.Dump.kind(self, w)
+
+    def regmap(self, regmap):
+        return hexpairs(sorted((self.wid[r], v) for r, v in regmap.items()))
+
+    def memmap(self, memmap):
+        return '[' + '; '.join('(%d, %s)' % (m.id, hexpairs(sorted(d.items())))
+                               for m, d in sorted(memmap.items(), key=lambda kv: kv[0].id)) + ']'
+
+    def inputs(self, seq):
+        byname = self.block.wirevector_by_name
+        return '[' + '; '.join(
+            hexpairs(sorted((self.wid[byname[nm]], v) for nm, v in step.items()))
+            for step in seq) + ']'
+
+    def mem(self, memid, m):
+        if isinstance(m, pyrtl.RomBlock):
+            tab = []
+            for a in range(1 << m.addrwidth):
+                try:
+                    tab.append((a, m._get_read_data(a)))
+                except pyrtl.PyrtlError:
+                    pass
+            return 'mkMem %d %d %d (Some %s)' % (memid, m.addrwidth, m.bitwidth, hexpairs(tab))
+        return nlx.Dump.mem(self, memid, m)
+
+
+FP_P = (1 << 61) - 1
+
+
+def fingerprint(row):
+    h = 7
+    for x in row:
+        h = (h * 1000003 + x % FP_P) % FP_P
+    return h
+
+
 def coq_args(dump, case, probes):
     return '%s %d %s %s %s %s' % (
         dump.coq(), case['dflt'], dump.regmap(case['regmap']), dump.memmap(case['memmap']),
         dump.inputs(case['inputs']), nlx.pairs(probes))
+
+
+def climb_check_expr(net, vals, expected):
+    if net.op == 's':
+        op = '(OpSelect %s)' % nlx.zlist(net.op_param)
+    else:
+        op = nlx.OPNAME[net.op]
+    args = hexpairs([(v, len(a)) for v, a in zip(vals, net.args)])
+    return '(%s, %s, %d, %s)' % (op, args, len(net.dests[0]), hexlit(expected))
 
 
 def climb_expr(net, vals):
@@ -471,12 +540,12 @@ def run(ctx):
     def mark(name):
         marks.append('%s=%.1fs' % (name, time.time() - t0))
     quick = ctx.tier == 'quick'
-    n_sweep = 12 if quick else 60
+    n_sweep = 18 if quick else 72
     n_random = 36 if quick else 760
     designs = []
     for i in range(n_sweep):
         rng = ctx.sub_rng('sweep', i)
-        designs.append(('sweep', i, sweep_design(rng, SWEEP_WIDTHS[i % 6], i // 6)))
+        designs.append(('sweep', i, sweep_design(rng, SWEEP_WIDTHS[i % 6], i // 6)))   # i//6 % 3 == 2: with truncating x/c/s
     for i in range(n_random):
         rng = ctx.sub_rng('random', i)
         designs.append(('random', i, random_design(rng, i % 2 == 1)))
@@ -519,26 +588,63 @@ def run(ctx):
             ctx.count('coq_evaluated', 'no (block too large)')
             continue
         ctx.count('coq_evaluated', 'yes')
-        dump = nlx.Dump(case['block'], net_order=case['ordered_nets'])
+        dump = HexDump(case['block'], net_order=case['ordered_nets'])
         probes = [(m.id, a) for m in block_mems(case['block']) if not isinstance(m, pyrtl.RomBlock)
                   for a in range(1 << m.addrwidth)]
         case['dump'] = dump
         case['probes'] = probes
         spec_exprs.append(coq_args(dump, case, probes))
         coq_cases.append(case)
-    shard = 6 if quick else 20
-    spec_res = ctx.coq_eval(['spec_case ' + e for e in spec_exprs], IMPORTS_SPEC, tag='c02spec',
-                            shard=shard, jobs=WORKERS)
+    shard = 8 if quick else 20
     try:
-        fast_res = ctx.coq_eval(['fastmodel_case ' + e for e in spec_exprs], IMPORTS_FAST, tag='c02fast',
-                                shard=shard, jobs=WORKERS)
+        fp_res = ctx.coq_eval(['c02_case ' + e for e in spec_exprs], IMPORTS_FAST, tag='c02fp',
+                              shard=shard, jobs=WORKERS)
     except Exception as e:  # noqa
-        fast_res = None
+        fp_res = None
         ctx.model_mismatch('Sim/FastModel.v could not be evaluated: %s' % str(e)[-600:], {})
-    mark('coq-spec+fast')
+    # routine comparison by fingerprint; every value is fetched (spec_case / fastmodel_case) only for
+    # the cases whose fingerprints differ from the implementation's
+    full_spec, full_fast = [], []
     for k, case in enumerate(coq_cases):
-        case['spec'] = spec_res[k]
-        case['fastmodel'] = fast_res[k] if fast_res is not None else None
+        dn = case['dump'].names()
+        ncyc = len(case['inputs'])
+        sim_tr, sim_mem = case['py']['sim']
+        sim_rows = [[sim_tr[nm][t] for nm in dn] for t in range(ncyc)]
+        sim_flat = [sim_mem[mid][a] for (mid, a) in case['probes']]
+        fast = case['py']['fast']
+        if isinstance(fast, str):
+            f_rows, f_flat = sim_rows, sim_flat
+        else:
+            f_rows = [[fast[0][nm][t] for nm in dn] for t in range(ncyc)]
+            f_flat = [fast[1][mid][a] for (mid, a) in case['probes']]
+        if fp_res is None:
+            full_spec.append(k)
+            case['fastmodel'] = None
+            continue
+        r = fp_res[k]
+        if r[3] == [fingerprint(row) for row in sim_rows] and r[2][0] == fingerprint(sim_flat):
+            case['spec'] = [[r[0][0]], sim_flat] + sim_rows
+            ctx.count('coq_comparison', 'spec: fingerprints equal')
+        else:
+            full_spec.append(k)
+            ctx.count('coq_comparison', 'spec: fingerprints differ -> all values fetched')
+        if r[4] == [fingerprint(row) for row in f_rows] and r[2][1] == fingerprint(f_flat):
+            case['fastmodel'] = [r[0], r[1], f_flat] + f_rows
+            ctx.count('coq_comparison', 'fastmodel: fingerprints equal')
+        else:
+            full_fast.append(k)
+            ctx.count('coq_comparison', 'fastmodel: fingerprints differ -> all values fetched')
+    if full_spec:
+        res = ctx.coq_eval(['spec_case ' + spec_exprs[k] for k in full_spec], IMPORTS_SPEC, tag='c02spec',
+                           shard=4, jobs=WORKERS)
+        for k, r in zip(full_spec, res):
+            coq_cases[k]['spec'] = r
+    if full_fast:
+        res = ctx.coq_eval(['fastmodel_case ' + spec_exprs[k] for k in full_fast], IMPORTS_FAST, tag='c02fast',
+                           shard=4, jobs=WORKERS)
+        for k, r in zip(full_fast, res):
+            coq_cases[k]['fastmodel'] = r
+    mark('coq-spec+fast')
 
     # CLimb samples: nets x cycles of the pre-synthesis / optimized blocks with operand values from Simulation
     samples = []
@@ -554,23 +660,26 @@ def run(ctx):
         for n in chosen:
             t = rng.randrange(len(case['inputs']))
             vals = [trace[a.name][t] for a in n.args]
-            samples.append((case, n, t, vals))
+            samples.append((case, n, t, vals) + climb_expected(case, n, t))
     try:
-        climb_res = ctx.coq_eval(['climb_ops [%s]' % '; '.join(climb_expr(n, vals) for (_, n, _, vals) in
-                                                             samples[k:k + 40])
-                                  for k in range(0, len(samples), 40)],
-                                 IMPORTS_CLIMB, tag='c02climb', shard=4, jobs=WORKERS)
-        climb_vals = [v for chunk in climb_res for v in chunk]
+        chunk = 60
+        climb_res = ctx.coq_eval(['climb_check [%s]' % '; '.join(
+            climb_check_expr(n, vals, exp) for (_, n, _, vals, exp, _, _) in samples[k:k + chunk])
+            for k in range(0, len(samples), chunk)], IMPORTS_CLIMB, tag='c02climb', shard=3, jobs=WORKERS)
+        climb_bad = {}
+        for ci, bad in enumerate(climb_res):
+            for idx, got in bad:
+                climb_bad[ci * chunk + idx] = got
     except Exception as e:  # noqa
-        climb_vals = None
+        climb_bad = None
         ctx.model_mismatch('Sim/CLimb.v could not be evaluated: %s' % str(e)[-600:], {})
 
     mark('coq-climb')
     # phase 4: comparisons
     for case in cases:
         compare_case(ctx, case)
-    if climb_vals is not None:
-        compare_climb(ctx, samples, climb_vals)
+    if climb_bad is not None:
+        compare_climb(ctx, samples, climb_bad)
     roundtrip_check(ctx)
     mark('compare')
     ctx.notes.append('phase wall clock (cumulative): ' + ' '.join(marks))
@@ -731,31 +840,32 @@ def compare_case(ctx, case):
         ctx.count('compared', 'fastmodel-tie')
 
 
-def compare_climb(ctx, samples, climb_vals):
-    for (case, n, t, vals), got in zip(samples, climb_vals):
+def climb_expected(case, n, t):
+    """(value the C simulator shows for the destination, its source, observable?) -- CompiledSimulation's
+    own value where a probe Output exposes it exactly, else Simulation's"""
+    dest = n.dests[0].name
+    comp = case['comp']
+    if not isinstance(comp, str) and not (case['dflt'] != 0 and case['has_mem']):
+        obs = observable_map(case['block'], set(comp[0]))
+        if dest in obs:
+            return comp[0][obs[dest]][t], 'CompiledSimulation', True
+    return case['py']['sim'][0][dest][t], 'Simulation', False
+
+
+def compare_climb(ctx, samples, climb_bad):
+    for k, (case, n, t, vals, expected, source, observable) in enumerate(samples):
         wide = any(len(w) > 64 for w in n.args + n.dests)
         ctx.count('climb_samples', '%s%s' % (n.op, ':limb' if wide else ''))
-        dest = n.dests[0].name
-        sim_val = case['py']['sim'][0][dest][t]
-        comp = case['comp']
-        expected, source = sim_val, 'Simulation'
-        observable = False
-        if not isinstance(comp, str) and not (case['dflt'] != 0 and case['has_mem']):
-            obs = observable_map(case['block'], set(comp[0]))
-            if dest in obs:
-                expected, source, observable = comp[0][obs[dest]][t], 'CompiledSimulation', True
+        ctx.count('climb_expected_from', source)
+        if k not in climb_bad:
+            continue
+        got = climb_bad[k]
         if got is None:
             ctx.model_mismatch('climb_op has no builder for %s' % n, {'net': str(n)})
             continue
-        if got != expected:
-            if n.op == 'c' and straddles(n) and not observable:
-                ctx.count('climb_samples', 'concat-straddle not observable in C (skipped)')
-                continue
-            ctx.model_mismatch('Sim/CLimb.v builder for %r gives %s, %s shows %s' % (n.op, got, source, expected),
-                               replay_dict(ctx, case, {'net': str(n), 'cycle': t, 'operands': vals,
-                                                       'widths': [len(a) for a in n.args], 'dest_width': len(n.dests[0])}))
-        if n.op == 'c' and straddles(n) and got != sim_val:
-            ctx.count('climb_samples', 'concat-straddle defect reproduced by the model')
+        ctx.model_mismatch('Sim/CLimb.v builder for %r gives %s, %s shows %s' % (n.op, got, source, expected),
+                           replay_dict(ctx, case, {'net': str(n), 'cycle': t, 'operands': vals,
+                                                   'widths': [len(a) for a in n.args], 'dest_width': len(n.dests[0])}))
 
 
 def roundtrip_check(ctx):
